@@ -472,7 +472,7 @@ async fn host_program(sh: std::rc::Rc<HostShared>) -> turmoil::Result {
     Ok(())
 }
 
-fn run_in_sim(sc: &Scenario, keep: bool) -> Report {
+pub(crate) fn run_in_sim(sc: &Scenario, keep: bool) -> Report {
     use std::rc::Rc;
     let mut log = Log::new(keep);
     let mut lists: Vec<Vec<FsOp>> = vec![sc.ops.clone()];
@@ -511,6 +511,10 @@ fn run_in_sim(sc: &Scenario, keep: bool) -> Report {
             if sc.knobs.block_size > 0 {
                 f.block_size(sc.knobs.block_size);
             }
+        }
+        if shared.len() >= 2 && sc.knobs.fs_seed % 2 == 0 {
+            // the hosts take their turns in a seeded random order: each must still work on its own tree
+            b.enable_random_order();
         }
         let mut sim = b.build();
         for (h, sh) in shared.iter().enumerate() {
@@ -591,6 +595,9 @@ fn run_in_sim(sc: &Scenario, keep: bool) -> Report {
     }
     if shared.len() > 1 {
         rep.probes.inc("in_sim_two_hosts_same_paths");
+        if sc.knobs.fs_seed % 2 == 0 {
+            rep.probes.inc("in_sim_two_hosts_random_turn_order");
+        }
     }
     rep.abstract_digest = log.abs_digest();
     rep.full_digest = log.full_digest();
